@@ -24,7 +24,7 @@ import (
 
 var c04Selectors = []string{"matchLabels", "In", "NotIn", "Exists", "generated", "generated+explicit", "empty"}
 var c04Labels = []string{"match", "partial", "none"}
-var c04Owners = []string{"none", "ours", "other-controller", "ours+extra", "other+extra", "extra-only", "plain-ours"}
+var c04Owners = []string{"none", "ours", "other-controller", "ours+extra", "other+extra", "extra-only", "plain-ours", "namesake-plain-owner"}
 var c04Live = []string{"same", "deleting", "replaced-uid", "gone"}
 
 type c04Case struct {
@@ -151,6 +151,10 @@ func c04Run(c c04Case) []mc.Finding {
 		kit.Owners(obj, extra, other)
 	case "extra-only":
 		kit.Owners(obj, extra)
+	case "namesake-plain-owner":
+		// nobody controls it; one of its owners has the parent's kind and name but is another object (same kind in
+		// another API group, another UID): that reference is somebody else's
+		kit.Owners(obj, kit.M{"apiVersion": "elsewhere.io/v1", "kind": "Thing", "name": "p", "uid": "uid-namesake"})
 	case "plain-ours":
 		// nobody controls it, but it already lists the parent as a plain owner (e.g. added by hand for garbage collection)
 		kit.Owners(obj, kit.OwnerRef(kit.Thing, "p", "puid", false))
@@ -347,7 +351,7 @@ func c04Run(c c04Case) []mc.Finding {
 			after = r.Post
 		}
 	}
-	orphan := c.Owners == "none" || c.Owners == "extra-only" || c.Owners == "plain-ours"
+	orphan := c.Owners == "none" || c.Owners == "extra-only" || c.Owners == "plain-ours" || c.Owners == "namesake-plain-owner"
 	cachedDeleting := c.CachedParent == "deleting"
 	liveOK := c.LiveParent == "same" && !cachedDeleting
 	switch {
@@ -406,8 +410,14 @@ func c04Run(c c04Case) []mc.Finding {
 			if kit.Str(rm, "uid") == "puid" {
 				continue
 			}
-			if !strings.Contains(strings.Join(names, ","), kit.Str(rm, "name")) {
-				bad("foreign-reference-dropped", "owner reference to %s was dropped", kit.Str(rm, "name"))
+			kept := false
+			for _, ar := range kit.List(after, "metadata", "ownerReferences") {
+				if kit.Str(ar, "uid") == kit.Str(rm, "uid") {
+					kept = true
+				}
+			}
+			if !kept {
+				bad("foreign-reference-dropped", "owner reference to %s %s (uid %s) was dropped", kit.Str(rm, "kind"), kit.Str(rm, "name"), kit.Str(rm, "uid"))
 			}
 		}
 		// ... and references that were no longer on the live object are not brought back from the cache
